@@ -140,7 +140,7 @@ def exOps : List Op :=
   [lam "a" .any .any, pt "p", lam "b" (.iface 0) (.conc 0),
    edge START "a", edge "a" "p", edge "p" "b", edge "b" END, .compile copts]
 
-def exCode (ret : Dyn) : Code := { body := fun k d => if k = "a" then ret else 0, pick := fun _ _ _ => END }
+def exCode (ret : Dyn) : Code := { body := fun k _ => if k = "a" then ret else 0, pick := fun _ _ _ => END }
 
 example : (run srcFacts menuImpl Ord.id (Builder.new .graph .any (.conc 0) none) exOps).2.1
     = [.ok, .ok, .ok, .ok, .ok, .ok, .ok, .ok] := by decide
@@ -176,5 +176,15 @@ theorem guarded_branch_rejected :
     iteration order: one order installs the converter (ordinary error), the other leaves the
     edge unchecked and the run panics -/
 def revOrd : Ord := { Ord.id with keys := fun _ l => l.reverse }
+
+theorem unpropagated_branch_order_dependent :
+    let f := { Expected.C20.facts with branchPropagates := false }
+    let ops := [pt "p", pt "e1", pt "e2", edge "p" "e1", edge "p" "e2",
+      .branch "e1" (.conc 0) [] false, .branch "e2" .any [] false,
+      edge START "p", edge "e2" END, .compile copts]
+    let go (o : Ord) := (run f menuImpl o (Builder.new .graph .any .any none) ops).2.2.map
+      (fun r => runGraph menuImpl r { body := fun _ d => d, pick := fun _ _ _ => "" } 20 1)
+    go Ord.id = [.panic] ∧ go revOrd = [.typeErr] := by
+  decide
 
 end EinoV.C07
